@@ -263,7 +263,8 @@ def run_args(ctx):
     bases = [URL(b) for b in ARG_BASES] + [URL("http://h/%2e./a/../b", encoded=True), URL("//h:x/p", encoded=True) if False else URL("x:y/../z", encoded=True)]
     maxlen = ctx.params["maxlen"]
     i = 0
-    extra = ["..", "./", "a/..", "/..", "../a", "%2e", "%2E%2e/", ".%2e", "\ud800", ".\ud800.", "é", " ", "\x00", "\t.", "..;", "a" * 300, "." * 300, "/" * 300, "1" * 300, ":" * 64, "[::1]", "[v1.x]", "::1", "1.2.3.4", "%25", "%zz"]
+    extra = ["..", "./", "a/..", "/..", "../a", "%2e", "%2E%2e/", ".%2e", "\ud800", ".\ud800.", "é", " ", "\x00", "\t.", "..;", "a" * 300, "." * 300, "/" * 300, "1" * 300, ":" * 64, "[::1]", "[v1.x]", "::1", "1.2.3.4", "%25", "%zz",
+             "::1%]:", "::1%a]:x", "::1%@b", "::1%a/b", "::1%?", "::1%#f", "1.2.3.4%@evil1", "::%@", "::1%[", "fe80::1%eth0", "::1%a b", "::1%\xe9", "%41", "%e4%b8%80", "%2e1", "%41:81", "%", "%1"]
     texts = ("".join(t) for L in range(0, maxlen + 2) for t in itertools.product(ALPHA, repeat=L))
     n4 = len(ALPHA) ** maxlen
     for t in itertools.chain(extra, texts):
